@@ -1,5 +1,90 @@
 import GnpyModel.Scalar
-/- model file Plan (see DESIGN.md §2) -/
-namespace Gnpy
+/-
+C16 — the batch pipeline (gnpy/tools/worker_utils.py `planning`, gnpy/topology/request.py
+`compute_path_with_disjunction`: `total_path = deepcopy(pathlist[i])` before every propagation;
+gnpy/core/elements.py `Edfa.interpol_params`: `self.effective_gain = min(self.effective_gain, p_max − pin_db)`).
 
-end Gnpy
+Two layers:
+* the pipeline as a function: every request's result is `computeOne settings request`; only the slot assignment is
+  a fold over the batch;
+* a stateful amplifier machine showing what the per-request deep copy protects against: an `Edfa` keeps the gain it
+  was clamped to, so without the copy a saturating request changes what the next request sees.
+-/
+namespace Gnpy.Plan
+
+/-! ## the pipeline -/
+
+/-- `planning` seen from outside: `computeOne` = route + mode + propagation on a private copy + verdict (everything
+C11–C13 decide) for ONE request; `assign` = one iteration of `pth_assign_spectrum` (C14). -/
+structure Pipeline (Settings Request Result Slots SlotOut : Type) where
+  computeOne : Settings → Request → Result
+  assign : Slots → Request × Result → Slots × SlotOut
+
+variable {Settings Request Result Slots SlotOut : Type}
+
+/-- the fold of the slot assignment over the batch, in batch order -/
+def assignAll (P : Pipeline Settings Request Result Slots SlotOut) :
+    Slots → List (Request × Result) → Slots × List SlotOut
+  | s, [] => (s, [])
+  | s, x :: xs =>
+    let (s1, o) := P.assign s x
+    let (s2, os) := assignAll P s1 xs
+    (s2, o :: os)
+
+structure PlanOut (Settings Result Slots SlotOut : Type) where
+  settings : Settings          -- the network settings after the batch
+  results : List Result
+  slotOuts : List SlotOut
+  slots : Slots
+
+/-- `planning(network, equipment, requests)` -/
+def plan (P : Pipeline Settings Request Result Slots SlotOut) (settings : Settings) (s0 : Slots)
+    (reqs : List Request) : PlanOut Settings Result Slots SlotOut :=
+  let results := reqs.map (P.computeOne settings)
+  let (s, outs) := assignAll P s0 (reqs.zip results)
+  { settings := settings, results := results, slotOuts := outs, slots := s }
+
+/-! ## the amplifier machine -/
+section machine
+variable {α : Type} [Add α] [Sub α] [LE α] [DecidableLE α]
+
+/-- run-time state of an amplifier -/
+structure Edfa (α : Type) where
+  effGain : α
+  pMax : α
+
+/-- `Edfa.interpol_params`: `effective_gain = min(effective_gain, p_max − pin_db)` — written back to the object —
+and the (flat, noiseless) output power `pin + effective_gain` -/
+def Edfa.call (e : Edfa α) (pinDb : α) : Edfa α × α :=
+  let g := if e.effGain ≤ e.pMax - pinDb then e.effGain else e.pMax - pinDb
+  ({ e with effGain := g }, pinDb + g)
+
+/-- a line: spans of (loss in dB, amplifier); a request is the total power (dBm) it launches -/
+def propagate : List (α × Edfa α) → α → List (α × Edfa α) × α
+  | [], p => ([], p)
+  | (loss, e) :: rest, p =>
+    let (e', p1) := e.call (p - loss)
+    let (rest', p2) := propagate rest p1
+    ((loss, e') :: rest', p2)
+
+/-- what `compute_path_with_disjunction` does: propagate on a deep copy; the network is returned as it was -/
+def propagateOnCopy (net : List (α × Edfa α)) (p : α) : List (α × Edfa α) × α := (net, (propagate net p).2)
+
+/-- a batch WITH the per-request copy -/
+def planCopy (net : List (α × Edfa α)) : List α → List (α × Edfa α) × List α
+  | [] => (net, [])
+  | p :: ps =>
+    let (net1, r) := propagateOnCopy net p
+    let (net2, rs) := planCopy net1 ps
+    (net2, r :: rs)
+
+/-- a batch WITHOUT the copy: the amplifiers' state threads from one request to the next -/
+def planShared (net : List (α × Edfa α)) : List α → List (α × Edfa α) × List α
+  | [] => (net, [])
+  | p :: ps =>
+    let (net1, r) := propagate net p
+    let (net2, rs) := planShared net1 ps
+    (net2, r :: rs)
+
+end machine
+end Gnpy.Plan
